@@ -10,7 +10,9 @@ def AllEv (P : Ev → Prop) (f : Step) : Prop := ∀ s, ∀ e ∈ (f s).2, P e
 
 /-- `P` holds of everything a step running under `env` can emit -/
 structure EnvPred (env : Env) (P : Ev → Prop) : Prop where
-  cb : ∀ (k : Key) vis o, k.inst = env.inst → k.op = env.op → P (.cb k vis o)
+  /-- every delivery event is emitted by `deliverLayer`: keyed to this instance and call, observing through `observe` -/
+  cb : ∀ (m : Method) (sid occ : Nat) (layer : Layer) (cur pend : Tr) (c : Core),
+    P (.cb ⟨env.inst, env.op, occ, m, sid, layer⟩ (observable env.cfg sid m layer) (observe env m.flavour sid cur pend c))
   act : ∀ (k : Key) a, k.inst = env.inst → k.op = env.op → P (.act k a)
   log : ∀ r, P (.log env.inst r)
 
@@ -76,7 +78,7 @@ theorem allEv_deliverLayer {P} {env : Env} (hP : EnvPred env P) (m : Method) (si
   rw [deliverLayer_eq]
   unfold layerBody
   refine AllEv.seq (allEv_emit fun s x hx => ?_) ?_ _
-  · simp only [List.mem_singleton] at hx; rw [hx]; exact hP.cb _ _ _ rfl rfl
+  · simp only [List.mem_singleton] at hx; rw [hx]; exact hP.cb _ _ _ _ _ _ _
   · split
     · exact allEv_runActions hP _ _ _ rfl rfl _
     · exact allEv_skip P
